@@ -282,6 +282,27 @@ let run_case (env : mdesc array) (envl : mdesc list) (line : string) : string op
          Buffer.add_string b (Printf.sprintf "W %d %d %d"
                                 (if WF.wf_msg envl m then 1 else 0) (if Canon.canon_msg envl m then 1 else 0)
                                 (if Canon.env_ok envl then 1 else 0))
+       | "LEDGER" ->
+         (* the verified allocation monitor (Impl/Ledger.v, Proofs/LedgerSound.v) on a trace of UNPACKT events *)
+         let evs = ref [] in
+         while t.pos < Array.length t.arr do
+           let tok = next t in
+           let num s = nat_of_int (int_of_string s) in
+           let two s = match String.index_opt s ':' with
+             | Some i -> (String.sub s 0 i, String.sub s (i + 1) (String.length s - i - 1))
+             | None -> (s, "0") in
+           let body = String.sub tok 1 (String.length tok - 1) in
+           let e = match tok.[0] with
+             | 'a' -> let (i, z) = two body in Ledger.EvAlloc (num i, z_of_int (int_of_string z))
+             | 'r' -> let (i, z) = two body in Ledger.EvRefuse (num i, z_of_int (int_of_string z))
+             | 'f' -> if body = "18446744073709551615" then Ledger.EvBadFree else Ledger.EvFree (num body)
+             | 'x' -> Ledger.EvBadFree
+             | 'U' -> Ledger.EvRet (body = "1")
+             | 'F' -> Ledger.EvFreeDone
+             | _ -> failwith ("bad event " ^ tok) in
+           evs := e :: !evs
+         done;
+         Buffer.add_string b (if Ledger.monitor (List.rev !evs) then "L 1" else "L 0")
        | "DEFECT" ->
          (* model only: Spec/Defect.v, the C19 notion of "lacks something serialisation needs" *)
          let m = parse_msg t in
